@@ -19,7 +19,40 @@ def probe_key(G):
     return wrap_sampler(keyful, name="probe_key")
 
 
-# program: list of stmts: ("site", id) | ("vsite", id, n) | ("cond", taken_is_true, prog) | ("scan", prog, n) | ("other",)
+INFO = 11  # width of a probe_shape entry: 2 key words, 1 + 4 words sample_shape, 1 + 3 words parameter batch shape
+
+
+def probe_shape(G):
+    """sampler with one parameter whose 'sample' reveals the key AND the static `sample_shape` / parameter batch shape of
+    the very sampler call that produced it: every entry is [key bits (2), len(ss), ss padded to 4, len(pa), pa padded to 3];
+    the returned array has the contract layout sample_shape + parameter batch shape + event shape (INFO,)"""
+    import jax
+    import jax.numpy as jnp
+    from genjax.pjax import wrap_sampler
+
+    def keyful(key, a, sample_shape=()):
+        ss, pa = tuple(int(d) for d in sample_shape), tuple(int(d) for d in jnp.shape(a))
+        assert len(ss) <= 4 and len(pa) <= 3
+        kd = jax.random.key_data(key).astype(jnp.uint32)
+        meta = [len(ss), *ss, *([0] * (4 - len(ss))), len(pa), *pa, *([0] * (3 - len(pa)))]
+        # (no array constants: the batching rule re-binds the sampler with the flat argument list, hoisted constants included)
+        info = jnp.stack([kd[0], kd[1]] + [kd[0] * 0 + v for v in meta])
+        return jnp.broadcast_to(info, ss + pa + (INFO,))
+
+    return wrap_sampler(keyful, name="probe_shape")
+
+
+def decode_info(row):
+    """(key bits, sample_shape, parameter batch shape) from one probe_shape entry"""
+    row = [int(x) for x in row]
+    ss = tuple(row[3:3 + row[2]])
+    pa = tuple(row[8:8 + row[7]])
+    return np.asarray(row[:2], dtype=np.uint32), ss, pa
+
+
+# program: list of stmts:
+#          | ("vsite2", id, ((n, batched), ... levels outermost first), own_sample_shape)   (probe_shape; gen_prog_vec only)
+# (old)  ("site", id) | ("vsite", id, n) | ("cond", taken_is_true, prog) | ("scan", prog, n) | ("other",)
 def gen_prog(rng, depth, counter=None):
     counter = counter if counter is not None else [0]
     out = []
@@ -37,10 +70,33 @@ def gen_prog(rng, depth, counter=None):
     return out
 
 
+def gen_prog_vec(rng, depth, counter=None):
+    """like gen_prog, but most sites are vectorised sites with nested vmap levels (batched or not) and an own sample_shape"""
+    counter = counter if counter is not None else [0]
+    out = []
+    for _ in range(rng.randint(1, 2)):
+        r = rng.random()
+        if r < 0.55 or depth == 0:
+            counter[0] += 1
+            if rng.random() < 0.15:
+                out.append(("site", counter[0]))
+            else:
+                levels = tuple((rng.randint(2, 3), rng.random() < 0.5) for _ in range(rng.randint(0, 2)))
+                own = tuple(rng.randint(1, 3) for _ in range(rng.randint(0, 2)))
+                out.append(("vsite2", counter[0], levels, own))
+        elif r < 0.7:
+            out.append(("cond", rng.random() < 0.5, gen_prog_vec(rng, depth - 1, counter)))
+        elif r < 0.95:
+            out.append(("scan", gen_prog_vec(rng, depth - 1, counter), rng.randint(1, 3)))
+        else:
+            out.append(("other",))
+    return out
+
+
 def to_sexp(prog):
     out = []
     for s in prog:
-        if s[0] in ("site", "vsite"):
+        if s[0] in ("site", "vsite", "vsite2"):
             out.append(["site", s[1]])
         elif s[0] == "cond":
             out.append(["cond", to_sexp(s[2])])
@@ -51,11 +107,39 @@ def to_sexp(prog):
     return out
 
 
+def to_sexp_vec(prog):
+    """the same program for the `seedvec` driver command (Model/SeedVec.lean)"""
+    out = []
+    for s in prog:
+        if s[0] == "site":
+            out.append(["vsite", s[1], [], []])
+        elif s[0] == "vsite":
+            out.append(["vsite", s[1], [[s[2], "F"]], []])
+        elif s[0] == "vsite2":
+            out.append(["vsite", s[1], [[n, "T" if b else "F"] for (n, b) in s[2]], list(s[3])])
+        elif s[0] == "cond":
+            out.append(["cond", to_sexp_vec(s[2])])
+        elif s[0] == "scan":
+            out.append(["scan", to_sexp_vec(s[1]), s[2]])
+        else:
+            out.append("other")
+    return out
+
+
 def build(G, prog):
     """f(p) -> flat list of key-bit arrays, one per site occurrence in program order (scan sites stacked)"""
     import jax
     import jax.numpy as jnp
     pk = probe_key(G)
+    ps = probe_shape(G)
+
+    def nest(levels, own, a):
+        if not levels:
+            return ps(a, sample_shape=tuple(own))
+        (n, batched), rest = levels[0], levels[1:]
+        if batched:   # the lanes come from a batched parameter
+            return G.modular_vmap(lambda ai: nest(rest, own, ai), in_axes=(0,))(a + jnp.zeros(n, jnp.float32))
+        return G.modular_vmap(lambda: nest(rest, own, a), in_axes=(), axis_size=n)()
 
     def run(stmts, p):
         outs = []
@@ -65,6 +149,8 @@ def build(G, prog):
                 outs.append(pk())
             elif k == "vsite":
                 outs.append(G.modular_vmap(lambda: pk(), in_axes=(), axis_size=s[2])())
+            elif k == "vsite2":
+                outs.append(nest(list(s[2]), s[3], p))
             elif k == "cond":
                 pred = (p > 0) if s[1] else (p < 0)
                 outs += list(jax.lax.cond(pred, lambda q: tuple(run(s[2], q)), lambda q: tuple(run(s[2], q * 1.0)), p))
@@ -102,8 +188,8 @@ def site_order(prog):
     """ids of site occurrences in the order of the function's flat output list"""
     out = []
     for s in prog:
-        if s[0] in ("site", "vsite"):
-            out.append((s[1], s[0] == "vsite"))
+        if s[0] in ("site", "vsite", "vsite2"):
+            out.append((s[1], s[0] == "vsite") if s[0] != "vsite2" else (s[1], s))
         elif s[0] == "cond":
             out += site_order(s[2])
         elif s[0] == "scan":
@@ -126,7 +212,14 @@ def observed_outputs(prog, outs):
     res, vs_ok = {}, True
     for (sid, is_v), arr in zip(order, outs):
         a = np.asarray(arr)
-        if is_v:
+        if isinstance(is_v, tuple):
+            # probe_shape site: shape (iters..., lanes..., own..., INFO): all entries come from one call
+            n_it = a.ndim - 1 - len(is_v[2]) - len(is_v[3])
+            a = a.reshape(a.shape[:n_it] + (-1, INFO))
+            if not (a == a[..., :1, :]).all():
+                vs_ok = False
+            a = a[..., 0, :2]
+        elif is_v:
             # shape (iters..., n, 2): all lanes share one key
             if not (a == a[..., :1, :]).all():
                 vs_ok = False
@@ -135,3 +228,56 @@ def observed_outputs(prog, outs):
         for idx in np.ndindex(*it_shape):
             res[(sid, tuple(int(i) for i in idx))] = a[idx]
     return res, vs_ok
+
+
+def model_calls(prog):
+    """[(id, iters, key path, sample_shape, returned shape)] of the Lean model with vectorised sites"""
+    r = sexp.loads(common.driver_run([sexp.dumps(["seedvec", to_sexp_vec(prog)])])[0])
+    return [(int(e[0]), tuple(int(i) for i in e[1]), e[2], tuple(int(i) for i in e[3]), tuple(int(i) for i in e[4])) for e in r[1:]]
+
+
+def expected_calls(prog, key):
+    """{(id, iters): (key bits, sample_shape, returned shape)} predicted by Model/SeedVec.lean + real jax.random"""
+    import jax
+    return {(sid, iters): (np.asarray(jax.random.key_data(eval_path(path, key))), ss, ret)
+            for sid, iters, path, ss, ret in model_calls(prog)}
+
+
+def observed_calls(prog, outs):
+    """{(id, iters): (key bits, sample_shape or None if the probe cannot reveal it, returned shape)} and whether all
+    entries of every vectorised site stem from ONE sampler call (same key, same static shapes)"""
+    order = site_order(prog)
+    res, one_call = {}, True
+    for (sid, kind), arr in zip(order, outs):
+        a = np.asarray(arr)
+        if isinstance(kind, tuple):
+            n_it = a.ndim - 1 - len(kind[2]) - len(kind[3])
+            flat = a.reshape(a.shape[:n_it] + (-1, INFO))
+            if not (flat == flat[..., :1, :]).all():
+                one_call = False
+            for idx in np.ndindex(*a.shape[:n_it]):
+                kb, ss, pa = decode_info(flat[idx][0])
+                res[(sid, tuple(int(i) for i in idx))] = (kb, ss, ss + pa)
+        else:
+            n_tail = 2 if kind else 1                      # (n, 2) for the one-level unbatched vsite, (2,) for a site
+            if kind and not (a == a[..., :1, :]).all():
+                one_call = False
+            for idx in np.ndindex(*a.shape[:a.ndim - n_tail]):
+                row = a[idx]
+                res[(sid, tuple(int(i) for i in idx))] = (row[0] if kind else row, None, tuple(a.shape[a.ndim - n_tail:-1]))
+    return res, one_call
+
+
+def from_json(prog):
+    """programs as tuples again after a JSON round trip (replay files)"""
+    out = []
+    for s in prog:
+        if s[0] == "cond":
+            out.append(("cond", s[1], from_json(s[2])))
+        elif s[0] == "scan":
+            out.append(("scan", from_json(s[1]), s[2]))
+        elif s[0] == "vsite2":
+            out.append(("vsite2", s[1], tuple((int(n), bool(b)) for n, b in s[2]), tuple(int(d) for d in s[3])))
+        else:
+            out.append(tuple(s))
+    return out
